@@ -1975,6 +1975,10 @@ class Cache:
         """
         # pylint: disable=access-member-before-definition,W0201
         with warnings.catch_warnings(record=True) as warns:
+            # Record every warning whatever filters the process runs with
+            # (`-W ignore` would report nothing, `-W error` would raise).
+
+            warnings.simplefilter('always')
             sql = self._sql
 
             # Check integrity of database.
